@@ -856,12 +856,16 @@ def run(ctx):
         ents = {b"%c%c%d" % (97 + g.r.below(26), 97 + g.r.below(26), j): ("f", b"") for j in range(8)}
         ents[bytes([75 + k % 10]) * (253 + k % 3)] = ("f", b"")
         rd[b"re%03d" % k] = ("d", ents)
-    metas.append(("tree " + " ".join(dump_tokens(rd)), "tree", (), None, None))
-    for nm in sorted(rd):
-        metas.append(("readdir " + H(nm), "readdir", (nm,), None, (False, False, False, 0)))
-        for _ in range(2):
-            metas.append(("readdirs " + H(nm), "readdirs", (nm,), None, (False, False, False, 0)))
-    metas.append(("rmall " + H(b"rd000"), "rmall", (b"rd000",), None, (False, False, False, 0)))
+    # (in trees of at most 105 directories: the observer walks the whole sandbox after every line)
+    names = sorted(rd)
+    for at in range(0, len(names), 105):
+        grp = names[at:at + 105]
+        metas.append(("tree " + " ".join(dump_tokens({nm: rd[nm] for nm in grp})), "tree", (), None, None))
+        for nm in grp:
+            metas.append(("readdir " + H(nm), "readdir", (nm,), None, (False, False, False, 0)))
+            for _ in range(2):
+                metas.append(("readdirs " + H(nm), "readdirs", (nm,), None, (False, False, False, 0)))
+        metas.append(("rmall " + H(grp[0]), "rmall", (grp[0],), None, (False, False, False, 0)))
     metas.append(("end", "end", (), None, None))
     lines = [m[0] for m in metas]
     # run 1: twin mode (std::fs as observer and as reference), yields the kernel's directory order
